@@ -74,5 +74,6 @@ func (m *mapStructDesc) Set(abiType uintptr, sd *structDesc) {
 		}
 	}
 	items = append(items, mapStructDescItem{abiType: abiType, sd: sd})
+	verifYield(verifYieldBeforeStore)
 	m.slots[bk].Store(&items)
 }
